@@ -19,12 +19,21 @@
 (*                              failure (logger.hpp:299)                                          *)
 (*   "exit_on_stop_flag"        the consumer loop is `while (!_stopping)`: it leaves as soon as   *)
 (*                              it sees the stop flag, whatever is still queued (logger.cpp:64)   *)
+(*   "exit_on_failed_pop_when_stopping"  the consumer takes a failed pop after the stop request   *)
+(*                              for "drained" and leaves                                          *)
+(*                                                                                                *)
+(* The queue (ff uMPMC_Ptr_Queue, C30) is not a plain FIFO at this grain: a push is two steps,     *)
+(* Reserve (take the next ticket) and Publish (make the element visible), elements are popped in   *)
+(* ticket order, and a pop *fails* while the head ticket is unpublished although published         *)
+(* elements may sit behind it.  A push spins while the ticket Lanes places before the next one is  *)
+(* unpublished (the lane is still busy).  Submit = Reserve;Publish in one step.                    *)
 EXTENDS Naturals, Sequences, FiniteSets, TLC
 
 Sentinel == <<0, 0>>
 Line(p, k) == <<p, k>>
 
 NoSub == [x \in {} |-> 0]
+Lanes == 4
 
 \* state record
 \*   q     the queue: sequence of Line / Sentinel
@@ -35,8 +44,15 @@ NoSub == [x \in {} |-> 0]
 \*   flag  stop requested
 \*   cpc   consumer: "check" "pop" "write" "sleep" "done";  cur = element popped
 \*   xpc   thread calling stop(): "idle" "enq" "join" "returned"
+\*   nt    tickets handed out;  unpub  Line -> ticket of the lines reserved and not yet published
 S0(P) == [q |-> <<>>, nsub |-> [p \in P |-> 0], sub |-> NoSub, file |-> <<>>, seq |-> 0, flag |-> FALSE,
-          cpc |-> "check", cur |-> Sentinel, xpc |-> "idle"]
+          cpc |-> "check", cur |-> Sentinel, xpc |-> "idle", nt |-> 0, unpub |-> NoSub]
+
+\* ---- the queue ---------------------------------------------------------------------------------
+CanPush(s) == \A l \in DOMAIN s.unpub : s.nt - s.unpub[l] < Lanes
+Parked(s, p) == \E l \in DOMAIN s.unpub : l[1] = p
+LineOf(s, p) == CHOOSE l \in DOMAIN s.unpub : l[1] = p
+CanPop(s) == s.q # <<>> /\ Head(s.q) \notin DOMAIN s.unpub
 
 \* ---- producer: Logger::send ------------------------------------------------------------------
 DoSubmit(s, p, en, dev) ==
@@ -44,18 +60,30 @@ DoSubmit(s, p, en, dev) ==
         ret == IF en THEN "enqueue_return_inverted" \notin dev ELSE TRUE
     IN [s EXCEPT !.nsub[p] = k,
                  !.q = IF en THEN Append(@, Line(p, k)) ELSE @,
+                 !.nt = IF en THEN @ + 1 ELSE @,
                  !.sub = (Line(p, k) :> [en |-> en, ret |-> ret, pre |-> s.xpc = "idle"]) @@ @]
+\* the two halves of a submit at an enabled level: the producer sits between them for as long as it likes
+DoReserve(s, p) ==
+    LET k == s.nsub[p] + 1
+    IN [s EXCEPT !.nsub[p] = k, !.q = Append(@, Line(p, k)), !.nt = @ + 1,
+                 !.unpub = (Line(p, k) :> s.nt) @@ @,
+                 !.sub = (Line(p, k) :> [en |-> TRUE, ret |-> FALSE, pre |-> FALSE]) @@ @]
+DoPublish(s, p, dev) ==
+    LET l == LineOf(s, p)
+    IN [s EXCEPT !.unpub = [x \in DOMAIN s.unpub \ {l} |-> s.unpub[x]],
+                 !.sub[l] = [en |-> TRUE, ret |-> "enqueue_return_inverted" \notin dev, pre |-> s.xpc = "idle"]]
 
 \* ---- Logger::stop ------------------------------------------------------------------------------
 DoXReq(s) == [s EXCEPT !.flag = TRUE, !.xpc = "enq"]
-DoXEnq(s) == [s EXCEPT !.q = Append(@, Sentinel), !.xpc = "join"]
+DoXEnq(s) == [s EXCEPT !.q = Append(@, Sentinel), !.nt = @ + 1, !.xpc = "join"]
 CanJoin(s) == s.xpc = "join" /\ s.cpc = "done"
 DoXJoin(s) == [s EXCEPT !.xpc = "returned"]
 
 \* ---- consumer: Logger::operator() --------------------------------------------------------------
 DoCCheck(s, dev) == IF "exit_on_stop_flag" \in dev /\ s.flag THEN [s EXCEPT !.cpc = "done"]
                     ELSE [s EXCEPT !.cpc = "pop"]
-DoCPop(s) == IF s.q = <<>> THEN [s EXCEPT !.cpc = "sleep"]
+DoCPop(s, dev) ==
+             IF ~CanPop(s) THEN [s EXCEPT !.cpc = IF "exit_on_failed_pop_when_stopping" \in dev /\ s.flag THEN "done" ELSE "sleep"]
              ELSE LET e == Head(s.q) IN
                   [s EXCEPT !.q = Tail(@), !.cur = e, !.cpc = IF e = Sentinel THEN "done" ELSE "write"]
 DoCWrite(s) == [s EXCEPT !.file = Append(@, [p |-> s.cur[1], k |-> s.cur[2], n |-> s.seq + 1]),
@@ -65,17 +93,19 @@ DoCSleep(s) == [s EXCEPT !.cpc = "check"]
 \* ---- seam grain: the consumer runs from one park position (sleep / write) to the next ------------
 RECURSIVE ToPark(_, _)
 ToPark(s, dev) == IF s.cpc = "check" THEN ToPark(DoCCheck(s, dev), dev)
-                  ELSE IF s.cpc = "pop" THEN ToPark(DoCPop(s), dev)
+                  ELSE IF s.cpc = "pop" THEN ToPark(DoCPop(s, dev), dev)
                   ELSE s
 RunC(s, dev) == IF s.cpc = "sleep" THEN ToPark(DoCSleep(s), dev)
                 ELSE IF s.cpc = "write" THEN ToPark(DoCWrite(s), dev)
                 ELSE s
-RunX(s) == IF s.xpc = "idle" THEN DoXEnq(DoXReq(s)) ELSE s
+RunX(s) == IF s.xpc = "idle" /\ CanPush(s) THEN DoXEnq(DoXReq(s)) ELSE s
 RunJ(s) == IF CanJoin(s) THEN DoXJoin(s) ELSE s
 
-\* one schedule step [a, p, en] with a in "S" "X" "C" "J"
+\* one schedule step [a, p, en] with a in "S" "R" "P" "X" "C" "J"
 SchedStep(s, st, dev) ==
     CASE st.a = "S" -> DoSubmit(s, st.p, st.en = 1, dev)
+      [] st.a = "R" -> (IF ~Parked(s, st.p) /\ CanPush(s) THEN DoReserve(s, st.p) ELSE s)
+      [] st.a = "P" -> (IF Parked(s, st.p) THEN DoPublish(s, st.p, dev) ELSE s)
       [] st.a = "X" -> RunX(s)
       [] st.a = "C" -> RunC(s, dev)
       [] st.a = "J" -> RunJ(s)
@@ -100,7 +130,7 @@ DisabledAbsent(s) == Written(s) \cap DOMAIN s.sub \subseteq Enabled(s)
 ProducerOrder(s) == \A i, j \in DOMAIN s.file : (i < j /\ s.file[i].p = s.file[j].p) => s.file[i].k < s.file[j].k
 SeqConsecutive(s) == \A i \in DOMAIN s.file : s.file[i].n = i
 \* the queue is unbounded: a line is accepted iff its level is enabled
-RetIffAccepted(s) == \A l \in Enabled(s) : s.sub[l].ret
+RetIffAccepted(s) == \A l \in Enabled(s) \ DOMAIN s.unpub : s.sub[l].ret
 StopComplete(s) == s.xpc = "returned" =>
                       /\ s.cpc = "done"                                   \* nothing is written afterwards
                       /\ \A l \in Enabled(s) : s.sub[l].pre => l \in Written(s)
